@@ -38,6 +38,8 @@ PROFILES = {
     "agg3": prof("MC_Focus", "MovesAgg", 3),
     "win2": prof("MC_Focus", "MovesWin", 2),
     "win3": prof("MC_Focus", "MovesWin", 3, srcs=[1, 6]),
+    "err2": prof("MC_Focus", "MovesErr", 2, srcs=[1, 4]),
+    "err3": prof("MC_Focus", "MovesErr", 3, srcs=[1]),
     "wins3": prof("MC_Focus", "MovesWinS", 3, srcs=[1, 6, 7]),
     "wins4": prof("MC_Focus", "MovesWinS", 4, srcs=[1, 6]),
 }
@@ -90,6 +92,12 @@ CHECKS = {
         level="model_checking",
         clauses=GEN_CLAUSES_SPEC | {"errclass", "getname"},
         phases=dict(quick=[dict(profile="ref3")], thorough=[dict(profile="ref3"), dict(profile="ref4")]),
+    ),
+    "C14": dict(
+        level="model_checking",
+        clauses={"errclass", "accept", "export-error"}, export_error_backends={"polars"},
+        phases=dict(quick=[dict(profile="err2"), dict(profile="join2"), dict(profile="union2")],
+                    thorough=[dict(profile="err3"), dict(profile="join2"), dict(profile="union3")]),
     ),
     "C16": dict(
         level="model_checking",
